@@ -2,8 +2,12 @@ package engines
 
 import (
 	"fmt"
+	"os"
+	"path/filepath"
 	"regexp"
+	"strconv"
 	"strings"
+	"sync"
 	"unicode/utf8"
 
 	"github.com/cosmos/cosmos-proto/rapidproto"
@@ -31,6 +35,44 @@ func init() {
 }
 
 var anyURLs = []string{"/B", "/google.protobuf.Timestamp", "/verif.impa.Point", "/verif.kinds.Scalars"}
+// fmDrawRange reads, from the generator's source, how many paths one draw of
+// genFieldMask yields (rapid.SliceOfN(..., lo, hi).Draw(t, "paths")). If the
+// source does not have that shape any more the range is not asserted.
+var fmRange struct {
+	once   sync.Once
+	lo, hi int
+	ok     bool
+}
+
+func fmDrawRange() (int, int, bool) {
+	fmRange.once.Do(func() {
+		repo := os.Getenv("VERIF_REPO")
+		if repo == "" {
+			repo = "/repo"
+		}
+		src, err := os.ReadFile(filepath.Join(repo, "rapidproto", "rapidproto.go"))
+		if err != nil {
+			return
+		}
+		i := strings.Index(string(src), "func (opts GeneratorOptions) genFieldMask(")
+		if i < 0 {
+			return
+		}
+		body := string(src)[i:]
+		if j := strings.Index(body[1:], "\nfunc "); j > 0 {
+			body = body[:j+1]
+		}
+		m := regexp.MustCompile(`rapid\.SliceOfN\(.*,\s*(\d+),\s*(\d+)\)\.Draw\(t, "paths"\)`).FindAllStringSubmatch(body, -1)
+		if len(m) != 1 {
+			return
+		}
+		fmRange.lo, _ = strconv.Atoi(m[0][1])
+		fmRange.hi, _ = strconv.Atoi(m[0][2])
+		fmRange.ok = fmRange.hi >= fmRange.lo && fmRange.lo >= 0
+	})
+	return fmRange.lo, fmRange.hi, fmRange.ok
+}
+
 var fmPath = regexp.MustCompile(`^[a-z]+([.][a-z]+){0,2}$`)
 
 const sentinel = "☃sentinel:"
@@ -281,6 +323,9 @@ func c18Walk(m protoreflect.Message, opts rapidproto.GeneratorOptions, mask, dep
 		l := m.Get(md.Fields().ByName("paths")).List()
 		if l.Len() < 1 {
 			return fmt.Errorf("%s: FieldMask drawn without the paths that were drawn for it (empty)", path)
+		}
+		if lo, hi, ok := fmDrawRange(); ok && (l.Len() < lo || l.Len() > hi) {
+			return fmt.Errorf("%s: FieldMask carries %d paths although one draw of the generator yields %d..%d: these are not (only) the paths drawn for it", path, l.Len(), lo, hi)
 		}
 		for i := 0; i < l.Len(); i++ {
 			if !fmPath.MatchString(l.Get(i).String()) {
